@@ -286,6 +286,49 @@ def midStmtOld (target : Bytes) (start : V) (num : Option V) (val : Option V) : 
       let v ← passString v
       midset target st n v false
 
+/-! ### FIELD variables: several strings laid over ONE record buffer (source and target may overlap)
+
+  `FIELD #n, w1 AS A$, w2 AS B$ …` makes string pointers into the record buffer of a random-access
+  file; several FIELD statements over the same file give overlapping variables.  A FIELD variable
+  is a window `(off, len)` of the buffer; `StringSpace.view` of it is a live `memoryview` slice. -/
+
+/-- value of the FIELD variable `(off, len)` -/
+def fieldGet (buf : Bytes) (off len : Nat) : Bytes := (buf.drop off).take len
+
+/-- the buffer after `view(off, new.length)[:] = new` -/
+def fieldPut (buf : Bytes) (off : Nat) (new : Bytes) : Bytes :=
+  buf.take off ++ new ++ buf.drop (off + new.length)
+
+/-- `LSET`/`RSET` of FIELD variable `(toff, tlen)` from FIELD variable `(soff, slen)` of the same
+    buffer: `String.lset` first copies the source (`in_str.to_value()` = `tobytes()`), trims and pads
+    the copy, and then writes the target view in one slice assignment -/
+def lsetField (buf : Bytes) (toff tlen soff slen : Nat) (right : Bool) : R Bytes := do
+  let src := fieldGet buf soff slen
+  let r ← lset (fieldGet buf toff tlen) src right
+  pure (fieldPut buf toff r)
+
+/-- NOT the code: an implementation that keeps a live view of the source, writes the space padding
+    into the target first and copies the source bytes afterwards (used only to show that the order
+    matters when the windows overlap) -/
+def lsetFieldLive (buf : Bytes) (toff tlen soff slen : Nat) (right : Bool) : Bytes :=
+  let n := min slen tlen
+  let pad := tlen - n
+  if right then
+    let b1 := fieldPut buf toff (List.replicate pad 32)
+    fieldPut b1 (toff + pad) (fieldGet b1 soff n)
+  else
+    let b1 := fieldPut buf (toff + n) (List.replicate pad 32)
+    fieldPut b1 toff (fieldGet b1 soff n)
+
+/-- `MID$(T$, st, n) = S$` with FIELD variables `T$ = (toff, tlen)`, `S$ = (soff, slen)`: windows with
+    identical extent are the same string pointer (byte-by-byte branch of `midset`); otherwise the
+    `memoryview` slice assignment copies as `memmove` does, i.e. from the source as it was -/
+def midsetField (buf : Bytes) (toff tlen soff slen : Nat) (st : V) (num : Option V) : R Bytes := do
+  let same := soff == toff && slen == tlen
+  let r ← midStmt (fieldGet buf toff tlen) st num
+    (if same then none else some (.str (fieldGet buf soff slen)))
+  pure (fieldPut buf toff r)
+
 /-! ### bookkeeping of `Memory.temp_values` (garbage-collection roots) by the string functions
 
   `left_`, `right_`, `mid_`, `instr_` register their string arguments in the set `temp_values`
